@@ -568,13 +568,12 @@ _STUB_NS = "NoSchema stub: tags are not looked up, so no tag is rewritten (HedTa
            "is the original text"
 
 
-def _cells(name, lo, hi):
-    return R.int_cells(name, lo, hi)
-
-
-# lengths 0..2: one cell each; length 3: by class of s[0], the "other" class also by class of s[1]
-_OFF_Q = (R.str_cells(2) + [{"VP_LEN": 3, "VP_C0": a} for a in range(5)]
+# lengths 0..2: one cell; length 3: by class of s[0], the "other" class also by class of s[1]
+_OFF_Q = ([{"VP_N": 2}] + [{"VP_LEN": 3, "VP_C0": a} for a in range(5)]
           + [{"VP_LEN": 3, "VP_C0": 5, "VP_C1": b} for b in range(6)])
+_OFF_T = ([{"VP_N": 2}] + R.str_cells(4, split1_from=3, split2_from=4, minlen=3))
+# combined_offsets, thorough: all (len(s1), len(s2)) with len(s1) <= 3, len(s2) <= 2 and sum <= 4
+_COMB_T = [{"VP_L1": a, "VP_L2": b} for a in range(4) for b in range(3) if a + b <= 4]
 _SORT_Q = ([{"VP_LEN": 0}, {"VP_LEN": 1}] + [{"VP_LEN": 2, "VP_G0": g} for g in _REAL_MASKS]
            + [{"VP_LEN": 3, "VP_KEY": 0, "VP_G0": g} for g in (0, 8)])
 _SORT_T = ([{"VP_LEN": 0}, {"VP_LEN": 1}] + [{"VP_LEN": 2, "VP_G0": g} for g in range(16)]
@@ -585,8 +584,7 @@ HARNESSES = [
         quick=R.tier(cells=_OFF_Q, env={"VP_N": 3}, timeout=400,
                      bound="every Unicode string s with len(s) <= 3, every tag of s, every 0 <= i <= j <= len(tag) "
                            "and j = None"),
-        thorough=R.tier(cells=R.str_cells(4, split1_from=3, split2_from=4), env={"VP_N": 4}, timeout=900,
-                        path_timeout=60,
+        thorough=R.tier(cells=_OFF_T, env={"VP_N": 4}, timeout=2400, path_timeout=60,
                         bound="every Unicode string s with len(s) <= 4, every tag of s, every 0 <= i <= j <= "
                               "len(tag) and j = None"),
         what="a fragment-quoting issue (has_sub_tag wrapper, NODE_NAME_EMPTY) built by format_error on a real tag "
@@ -619,11 +617,11 @@ HARNESSES = [
     R.H("whole_tag_offsets", [_ER + "hed_tag_error", _ER + "ErrorHandler.format_error_with_context",
                               "hed.errors.error_messages.val_error_duplicate_tag",
                               "hed.errors.error_messages.val_error_empty_group"] + _T_DECOR,
-        quick=R.tier(cells=R.str_cells(3, split1_from=3), env={"VP_N": 3}, timeout=300,
+        quick=R.tier(cells=[{"VP_N": 2}, {"VP_LEN": 3}], env={"VP_N": 3}, timeout=300,
                      bound="every Unicode string s with len(s) <= 3; every tag and every empty group of s"),
-        thorough=R.tier(cells=R.str_cells(4, split1_from=3, split2_from=4), env={"VP_N": 4}, timeout=900,
-                        path_timeout=60,
-                        bound="every Unicode string s with len(s) <= 4; every tag and every empty group of s"),
+        thorough=R.tier(cells=[{"VP_N": 3}] + R.str_cells(5, split1_from=4, split2_from=5, minlen=4),
+                        env={"VP_N": 5}, timeout=1500, path_timeout=60,
+                        bound="every Unicode string s with len(s) <= 5; every tag and every empty group of s"),
         what="a whole-tag issue (HED_TAG_REPEATED on each tag, HED_GROUP_EMPTY on each '()' group) made by "
              "format_error_with_context: offsets inside s, s[char_index:char_index_end] is the tag/group text quoted "
              "in the message, message == template + one location suffix",
@@ -636,9 +634,9 @@ HARNESSES = [
                      env={"VP_N": 2, "VP_M": 1}, timeout=400,
                      bound="row string combined from the cells 'q', s1, s2 with len(s1) <= 2, len(s2) <= 1, any "
                            "Unicode"),
-        thorough=R.tier(cells=R.product_cells(R.int_cells("VP_L1", 0, 3), R.int_cells("VP_L2", 0, 2)),
-                        env={"VP_N": 3, "VP_M": 2}, timeout=1500, path_timeout=60,
-                        bound="row string combined from the cells 'q', s1, s2 with len(s1) <= 3, len(s2) <= 2"),
+        thorough=R.tier(cells=_COMB_T, env={"VP_N": 3, "VP_M": 2}, timeout=2400, path_timeout=60,
+                        bound="row string combined from the cells 'q', s1, s2 with len(s1) <= 3, len(s2) <= 2, "
+                              "len(s1) + len(s2) <= 4"),
         what="HedString.from_hed_strings of three cells (as the table validator does): the combined text is the "
              "cells joined by ','; an issue naming any tag of any cell gets the tag's span shifted by the lengths "
              "of the preceding cells + commas, and those offsets select that tag's text in the combined text",
@@ -653,8 +651,8 @@ HARNESSES = [
                            "tag, tag-less, foreign tag}; severity override in {1,10}; warnings on/off; 1 or 2 "
                            "decoration passes; three decoration routes; any row number"),
         thorough=R.tier(cells=R.product_cells(R.int_cells("VP_KIND", 0, 3), R.int_cells("VP_ROUTE", 0, 2)),
-                        env={"VP_N": 3}, timeout=600,
-                        bound="as quick with 1 <= len(t) <= 3"),
+                        env={"VP_N": 4}, timeout=900,
+                        bound="as quick with 1 <= len(t) <= 4"),
         what="after k in {1,2} passes through add_context_and_filter / format_error_with_context / "
              "format_error_from_context: warnings dropped iff errors-only, context keys set, offsets present iff the "
              "issue names a tag of the held string and then unchanged by a second pass, the location suffix occurs "
@@ -668,8 +666,8 @@ HARNESSES = [
                      bound="real HedValidator.validate over every combination of 2 basic-stage and 1 full-stage "
                            "issue slots (none / located warning / located error / tag-less warning / tag-less "
                            "error), warnings on/off, handler with/without the string; t one lower-case letter"),
-        thorough=R.tier(cells=R.int_cells("VP_B0", 0, 4), env={"VP_N": 2}, timeout=600,
-                        bound="as quick with 1 <= len(t) <= 2"),
+        thorough=R.tier(cells=R.int_cells("VP_B0", 0, 4), env={"VP_N": 3}, timeout=900,
+                        bound="as quick with 1 <= len(t) <= 3"),
         what="issues returned by HedValidator.validate are well-formed, located iff they name a tag and the handler "
              "holds the string, carry the suffix exactly once, and errors-only == error-severity part (same order, "
              "same codes and offsets) of the warnings-on result",
@@ -682,7 +680,7 @@ HARNESSES = [
                                _ER + "ErrorHandler.filter_issues_by_severity",
                                _ER + "ErrorHandler.format_error_with_context"],
         quick=R.tier(env={"VP_N": 3}, timeout=120, bound="issue lists of length <= 3, severities in {1,10}"),
-        thorough=R.tier(env={"VP_N": 5}, timeout=600, bound="issue lists of length <= 5, severities in {1,10}"),
+        thorough=R.tier(env={"VP_N": 6}, timeout=600, bound="issue lists of length <= 6, severities in {1,10}"),
         what="errors-only filtering keeps exactly the error-severity issues (same objects, same order) of the "
              "warnings-on list; warnings-on keeps everything",
         oracle="models/issues_ref.py (error_subset, same_objects)", outside="longer lists"),
@@ -705,7 +703,7 @@ HARNESSES = [
                      bound="issue lists of 2..5 issues of every kind decorated with file, row and string context, "
                            "optional nested list/dict values holding tag/string references, 1 or 2 replacement "
                            "passes, list or dict top level; t lower-case letters, len <= 2"),
-        thorough=R.tier(env={"VP_N": 3}, timeout=600, bound="as quick with len(t) <= 3"),
+        thorough=R.tier(env={"VP_N": 4}, timeout=600, bound="as quick with len(t) <= 4"),
         what="after replace_tag_references every value is a JSON value (checked structurally), codes and "
              "severities unchanged, the string context and source_tag became text (source_tag == the tag's text)",
         oracle="models/issues_ref.py (json_value)", stubs=[_STUB_PARSE, _STUB_NS],
